@@ -81,6 +81,29 @@ func empty(s seqSpec) sliceable {
 	return linear.NewSeq("dst", nil, a)
 }
 
+// usedDst is a destination that is not fresh: it already holds letters at a non-zero offset and,
+// for used == 1, is circular (used == 2: linear). Nothing of that earlier content or frame may
+// show in a result written into it.
+func usedDst(s seqSpec, used int) sliceable {
+	if used == 0 {
+		return empty(s)
+	}
+	pool := sm.Alpha(s.Alpha).Letters()
+	old := seqSpec{Quality: s.Quality, Alpha: s.Alpha, Offset: 9, Circular: used == 1}
+	for i := 0; i < 11; i++ {
+		old.L += string(pool[i%len(pool)])
+		old.Q = append(old.Q, 7+i)
+	}
+	d := build(old)
+	switch x := d.(type) {
+	case *linear.Seq:
+		x.ID = "dst"
+	case *linear.QSeq:
+		x.ID = "dst"
+	}
+	return d
+}
+
 type content struct {
 	L string
 	Q []int
@@ -167,13 +190,14 @@ type truncCase struct {
 	Start   int     `json:"start"`
 	End     int     `json:"end"`
 	SameDst bool    `json:"same_dst"`
+	DstUsed int     `json:"dst_used,omitempty"` // see usedDst (only when dst != src)
 }
 
 func checkTrunc(c truncCase) *vlib.Failure {
 	src := build(c.S)
 	dst := src
 	if !c.SameDst {
-		dst = empty(c.S)
+		dst = usedDst(c.S, c.DstUsed)
 	}
 	off, end := c.S.Offset, c.S.end()
 	var want content
@@ -191,7 +215,7 @@ func checkTrunc(c truncCase) *vlib.Failure {
 			want = cat(c.S.seg(c.Start, end), c.S.seg(off, c.End))
 		}
 	}
-	what := fmt.Sprintf("Truncate(%d,%d) of %q at [%d,%d) circular=%v same-dst=%v", c.Start, c.End, c.S.L, off, end, c.S.Circular, c.SameDst)
+	what := fmt.Sprintf("Truncate(%d,%d) of %q at [%d,%d) circular=%v same-dst=%v dst-used=%d", c.Start, c.End, c.S.L, off, end, c.S.Circular, c.SameDst, c.DstUsed)
 	before := read(src, c.S.Quality)
 	err, fl := callNoPanic(what, func() error { return sequtils.Truncate(dst, src, c.Start, c.End) })
 	if fl != nil {
@@ -254,6 +278,9 @@ func genSeqSpec(t *rapid.T, label string, maxLen int, pairedOnly bool) seqSpec {
 
 func truncClasses(c truncCase) []string {
 	var l []string
+	if c.DstUsed == 1 {
+		l = append(l, "destination-previously-circular")
+	}
 	off, end := c.S.Offset, c.S.end()
 	inside := c.Start >= off && c.End <= end && c.Start <= end && c.End >= off
 	switch {
@@ -290,6 +317,9 @@ func TestTruncate(t *testing.T) {
 			default: // inside, start >= end (through the origin for circular sources)
 				c.End = rapid.IntRange(off, end).Draw(t, "end-in")
 				c.Start = rapid.IntRange(c.End, end).Draw(t, "start-in")
+			}
+			if !c.SameDst {
+				c.DstUsed = rapid.IntRange(0, 2).Draw(t, "dst-used")
 			}
 			return c
 		},
@@ -445,6 +475,11 @@ type stitchCase struct {
 	Feats   []featSpec `json:"feats"`
 	SameDst bool       `json:"same_dst"`
 	Compose bool       `json:"compose"`
+	DstUsed int        `json:"dst_used,omitempty"` // see usedDst (only when dst != src)
+	// Prior: an earlier call of the same function, on another sequence, with these features; when
+	// one of them is inverted (end < start) that call is refused. Whatever it did, nothing of it
+	// may show in the call that follows.
+	Prior []featSpec `json:"prior,omitempty"`
 }
 
 func clampI(v, lo, hi int) int {
@@ -476,10 +511,23 @@ func revcompContent(alpha string, c content) content {
 }
 
 func checkStitch(c stitchCase) *vlib.Failure {
+	if len(c.Prior) > 0 {
+		ps := c.S
+		ps.Offset, ps.Circular = 0, false
+		psrc := build(ps)
+		if _, fl := callNoPanic("the earlier call", func() error {
+			if c.Compose {
+				return sequtils.Compose(empty(ps), psrc, features(c.Prior))
+			}
+			return sequtils.Stitch(empty(ps), psrc, features(c.Prior))
+		}); fl != nil && !priorInverted(c.Prior) {
+			return fl
+		}
+	}
 	src := build(c.S)
 	dst := src
 	if !c.SameDst {
-		dst = empty(c.S)
+		dst = usedDst(c.S, c.DstUsed)
 	}
 	off, end := c.S.Offset, c.S.end()
 	before := read(src, c.S.Quality)
@@ -540,6 +588,15 @@ func checkStitch(c stitchCase) *vlib.Failure {
 	return nil
 }
 
+func priorInverted(fs []featSpec) bool {
+	for _, f := range fs {
+		if f.E < f.S {
+			return true
+		}
+	}
+	return false
+}
+
 func genStitch(compose bool) func(t *rapid.T) stitchCase {
 	return func(t *rapid.T) stitchCase {
 		c := stitchCase{S: genSeqSpec(t, "s", 40, true), SameDst: rapid.IntRange(0, 3).Draw(t, "same-dst") == 0, Compose: compose}
@@ -569,12 +626,38 @@ func genStitch(compose bool) func(t *rapid.T) stitchCase {
 			f := featSpec{S: s, E: e, Orient: int8(rapid.SampledFrom([]int{1, 1, -1, -1, 0}).Draw(t, "orient")), Plain: rapid.IntRange(0, 5).Draw(t, "plain") == 0}
 			c.Feats = append(c.Feats, f)
 		}
+		if !c.SameDst {
+			c.DstUsed = rapid.IntRange(0, 2).Draw(t, "dst-used")
+		}
+		if rapid.IntRange(0, 3).Draw(t, "prior-call") == 0 {
+			// an earlier call on a sequence at offset 0: features inside it, then (usually) an inverted one
+			L := len(c.S.L)
+			np := rapid.IntRange(1, 3).Draw(t, "nprior")
+			for i := 0; i < np; i++ {
+				ps := rapid.IntRange(0, L).Draw(t, "prior-s")
+				pe := rapid.IntRange(ps, L).Draw(t, "prior-e")
+				c.Prior = append(c.Prior, featSpec{S: ps, E: pe, Orient: int8(rapid.SampledFrom([]int{1, -1}).Draw(t, "prior-orient"))})
+			}
+			if rapid.IntRange(0, 2).Draw(t, "prior-inverted") > 0 {
+				ps := rapid.IntRange(1, L+1).Draw(t, "prior-bad-s")
+				c.Prior = append(c.Prior, featSpec{S: ps, E: ps - 1 - rapid.IntRange(0, 3).Draw(t, "prior-bad-len"), Orient: 1})
+			}
+		}
 		return c
 	}
 }
 
 func stitchClasses(c stitchCase) []string {
 	var l []string
+	if c.DstUsed != 0 {
+		l = append(l, "destination-previously-used")
+	}
+	if len(c.Prior) > 0 {
+		l = append(l, "after-an-earlier-call")
+		if priorInverted(c.Prior) {
+			l = append(l, "after-a-refused-call")
+		}
+	}
 	rev, outside, overlap := 0, false, false
 	off, end := c.S.Offset, c.S.end()
 	for i, f := range c.Feats {
